@@ -45,7 +45,7 @@ REPL = {
     "narrowpeak": {"start": (1, "int"), "name": (3, "id"), "strand": (5, "strand"), "signal_value": (6, "float"), "summit": (9, "int")},
     "vcf": {"chromosome": (0, "id"), "position": (1, "pos1"), "id": (2, "str"), "ref_seq": (3, "str"), "filter": (6, "str")},
     "sam": {"name": (0, "id"), "flag": (1, "int"), "position": (3, "int"), "cigar": (5, "str"), "sequence": (9, "str")},
-    "fastq": {"name": (0, "id"), "sequence": (1, "str")},
+    "fastq": {"name": (0, "id"), "sequence": (1, "str"), "quality": (2, "qual")},
     "fasta2": {"name": (0, "id"), "sequence": (1, "str")},
     "gtf": {"chromosome": (0, "id"), "start": (3, "int"), "source": (1, "str"), "strand": (6, "strand")},
 }
@@ -60,6 +60,8 @@ def new_value_text(kind, seed, row):
         return repr(float(x % 1000) / 8.0)
     if kind == "strand":
         return "+-."[x % 3]
+    if kind == "qual":
+        return "I5#~!"[x % 5] * (1 + x % 5) + "5"
     if kind == "id":
         return "n" + str(x % 50) + "_" * (x % 3)
     return "ACGT"[x % 4] * (1 + x % 5)
@@ -78,6 +80,9 @@ def to_array(kind, texts):
         return np.array([float(t) for t in texts], dtype=float)
     if kind == "strand":
         return bnp.as_encoded_array("".join(texts), StrandEncoding)
+    if kind == "qual":
+        from bionumpy.encodings import QualityEncoding
+        return bnp.as_encoded_array(list(texts), QualityEncoding)
     if kind == "id":
         return as_string_array(list(texts))
     return bnp.as_encoded_array(list(texts))
